@@ -16,6 +16,7 @@ pub struct MarkdownEventsReader {
     line_starts: Vec<usize>,
     metadata_block: bool,
     html_block: bool,
+    inline_in_block: bool,
     metadata: Option<String>,
 }
 
@@ -29,6 +30,7 @@ impl MarkdownEventsReader {
             line_starts: Vec::new(),
             metadata_block: false,
             html_block: false,
+            inline_in_block: false,
             metadata: None,
         }
     }
@@ -116,8 +118,17 @@ impl MarkdownEventsReader {
                     self.pop_inline();
                 }
                 FootnoteReference(_) => {}
-                SoftBreak => {}
-                HardBreak => {}
+                SoftBreak | HardBreak => {
+                    // a line break between two inlines separates words: keep it as a space
+                    // (a break that opens a paragraph separates nothing)
+                    if self.inline_in_block {
+                        self.push_inline(
+                            DocumentInline::Str(" ".to_string()),
+                            self.to_line_range(range),
+                        );
+                        self.pop_inline();
+                    }
+                }
                 Rule => {
                     self.push_block(DocumentBlock::HorizontalRule(HorizontalRule {
                         line_range: self.to_line_range(range),
@@ -132,6 +143,7 @@ impl MarkdownEventsReader {
     }
 
     fn push_inline(&mut self, inline: DocumentInline, lines_range: LineRange) {
+        self.inline_in_block = true;
         self.inlines_stack.push(inline);
         self.inlines_pos_stack.push(lines_range);
     }
@@ -166,6 +178,12 @@ impl MarkdownEventsReader {
     }
 
     fn start_tag(&mut self, tag: Tag, range: Range<usize>) {
+        if matches!(
+            tag,
+            Tag::Paragraph | Tag::Heading { .. } | Tag::Item | Tag::TableCell
+        ) {
+            self.inline_in_block = false;
+        }
         match tag {
             Tag::Paragraph => {
                 self.push_block(DocumentBlock::Para(Para {
